@@ -145,7 +145,10 @@ def conv_name_writer(conv, prefix):
 
 def neutral_prefix(p):
     if p["k"] == "varint":
-        return {"k": "varint", "max": p.get("max", 5)}
+        out = {"k": "varint", "max": p.get("max", 5)}
+        if p.get("noncanonical"):
+            out["noncanonical"] = p["noncanonical"]
+        return out
     if p["k"] == "single-byte":
         return {"k": "single-byte", "max_value": p.get("max_value"), "why": p.get("why")}
     return {"k": "fixed", "fmt": p["fmt"]}
@@ -242,6 +245,8 @@ def neutral_w(d):
 def _cmp_prefix(a, b, where, out):
     if a["k"] == "single-byte":
         out.append(f"{where}: {a.get('why')}")
+    elif a.get("noncanonical"):
+        out.append(f"{where}: the varint is not written canonically -- {a['noncanonical']}")
     elif a["k"] != b["k"]:
         out.append(f"{where}: length/value prefix is {a} but {b} is prescribed")
     elif a["k"] == "fixed" and a["fmt"] != b["fmt"]:
@@ -334,6 +339,8 @@ def cmp_rw(r, w, where="field", nullable=True) -> list[str]:
         a, b = r["prefix"], w["prefix"]
         if b["k"] == "single-byte":
             out.append(f"{where}: {b.get('why')}; the reader takes the set continuation bit as the start of a longer varint")
+        elif b.get("noncanonical"):
+            out.append(f"{where}: the varint the writer emits is not the one the reader decodes -- {b['noncanonical']}")
         elif a["k"] != b["k"] or a.get("fmt") != b.get("fmt"):
             out.append(f"{where}: writer prefix {b} vs reader prefix {a}")
     if k == "scalar":
